@@ -17,7 +17,7 @@ func init() {
 		Decides: "directive names are case-folded before they become keys of the directive map (or compared case-insensitively at every lookup); Cache-Control is read through " +
 			"all field lines on both the request and the response side; the string handed to the delta-seconds decoder passed the quoted-string decoder; delta-seconds saturate; " +
 			"the list splitter trims every element and never yields an empty one; request and response directives go through the same tokenizer.",
-		NotDecided: "full grammar equivalence (quoted commas, escapes inside quoted strings), duplicate directives, unknown extension directives' interplay.",
+		NotDecided: "full grammar equivalence of the splitter for every input (decided: escape state before quote/comma, escape only inside quotes, no early exit, first occurrence / bare form of repeated directives); malformed fields (unbalanced quotes, blanks around `=`).",
 		Rules: []Rule{
 			{ID: "C12.1", Desc: "directive names are case-folded", Run: ruleC12_1, MinSites: 1},
 			{ID: "C12.2", Desc: "Cache-Control read through all field lines", Run: func(c *Ctx) { ruleRLIST(c, "C12.2", "Cache-Control") }, MinSites: 1},
